@@ -1,8 +1,11 @@
 #!/bin/bash
-# sensitivity helper: ./sens.sh <PROP> <file-in-repo> <python-regex-from> <to>   (applies, runs quick check, reverts)
+# sensitivity helper: ./sens.sh <PROP> <file-in-repo> <python-regex-from> <to>
+# applies the mutation in a scratch worktree of /repo (never in /repo itself), runs the quick
+# check against it (VERIF_REPO), and resets the worktree.
 PROP="$1"; FILE="$2"; FROM="$3"; TO="$4"
-cd /repo || exit 2
-[ -z "$(git status --porcelain)" ] || { echo "repo dirty"; exit 2; }
+W=/tmp/wt-sens
+[ -d $W ] || git -C /repo worktree add -q $W HEAD || exit 2
+cd $W && git checkout -q --detach $(git -C /repo rev-parse HEAD) && git checkout -q -- . || exit 2
 python3 - "$FILE" "$FROM" "$TO" <<'PY'
 import sys,re
 p,fr,to=sys.argv[1:4]
@@ -13,5 +16,5 @@ open(p,'w').write(n[0])
 PY
 [ $? -eq 0 ] || exit 3
 git diff | grep '^[+-]' | grep -v '^+++\|^---'
-( cd /verif && VERIF_WALL_CAP=${CAP:-120} ./check "$PROP" quick | grep -v "^NOTE\|^WARNING" | tail -${TAIL:-6}; echo "exit=${PIPESTATUS[0]}" )
-git checkout -- . 
+( cd /verif && VERIF_REPO=$W VERIF_WALL_CAP=${CAP:-120} ./check "$PROP" quick | grep -v "^NOTE\|^WARNING" | tail -${TAIL:-6}; echo "exit=${PIPESTATUS[0]}" )
+git checkout -q -- .
